@@ -90,10 +90,11 @@ def c11(ctx):
         evaluations=rep["evaluations"] + trep["evaluations"],
         vectors_replayed=rep["extra"]["vectors"],
         distinct_nontrivial=rep["distinct_nontrivial"],
-        rule="vectors: every byte string of length <= %d over 22 byte classes {a, ESC, DEL, 80 85 8F 90 9F A0 BF, C0 C2 DF E0 E1 ED EE F0 F1 F4 F5 FF} (TLC: FromPlain model satisfies C11 against the Unicode Table 3-7 automaton), replayed through charset.FromPlain and Detect, with class-expanded variants and an ASCII prefix (last-three-bytes window); the automaton is cross-checked against unicode/utf8.Valid on every vector. traces: UTF-8 / Latin-1 / CP-1252 prose cut at every limit and all text placements of C07, validated by TraceText.tla. non-trivial = strings with a non-ASCII byte" % (4 if quick else 5),
+        rule="vectors: every byte string of length <= %d over 24 byte classes {a, ESC, DEL, 80 85 8F 90 9F A0 BD BF, C0 C2 DF E0 E1 ED EE EF F0 F1 F4 F5 FF} (TLC: FromPlain model satisfies C11 against the Unicode Table 3-7 automaton), replayed through charset.FromPlain and Detect, with class-expanded variants, an ASCII prefix (last-three-bytes window) and as the undeclared body of XML / HTML documents with and without a leading UTF-8 mark (text/xml and text/html leaves); the automaton is cross-checked against unicode/utf8.Valid on every vector. traces: UTF-8 / Latin-1 / CP-1252 prose cut at every limit and all text placements of C07, validated by TraceText.tla. non-trivial = strings with a non-ASCII byte" % (4 if quick else 5),
         exhaustive=True,
         drift=dict(count=rep["drift"], samples=rep.get("drift_samples", [])[:5]),
         text_plain_leaf_results=rep["extra"]["text_plain_leaf_results"] + trep["extra"]["text_plain_leaf_results"],
+        undeclared_xml_html_leaf_results=rep["extra"].get("undeclared_xml_html_leaf_results", 0),
         samples=rep["samples"][:4] + trep["samples"][:4],
     )
     return core.finish(ctx, violations, cov, ["FF FE 00 00 may be reported as utf-32le or utf-16le", "ASCII text characters = {09 0A 0C 0D 1B 20-7E}"])
@@ -135,7 +136,7 @@ def c12(ctx):
     cov = dict(
         evaluations=rep["evaluations"],
         distinct_nontrivial=rep["extra"]["declaration_applicable"],
-        rule="model: the per-<meta> algorithm on all attribute lists of length <= 4 (%d) and fromMetaElement on %d structured content values agree with the reference. documents: label (%s) x {meta charset, http-equiv pragma} x quoting x attribute order x extra / duplicate attributes x letter case of tag and attribute names x whitespace layout x self-closing x 8 prologues (doctype, html/head, comment / script / title containing a fake meta, another meta, content without http-equiv, leading whitespace) x {no mark, UTF-8 mark} x limit {0, default, just past the declaration}; XML: label x quote x {version+encoding, +standalone, spaced} x {none, whitespace, mark} x limit; each rendered by the concretiser and run through Detect; the reported charset must equal the specification's Expected. non-trivial = documents whose result type is text/html resp. text/xml" % (t1["distinct"], t2["distinct"], "8 labels" if quick else "20 labels"),
+        rule="model: the per-<meta> algorithm on all attribute lists of length <= 4 (%d) and fromMetaElement on %d structured content values agree with the reference. documents: label (%s) x {meta charset, http-equiv pragma} x quoting x attribute order x extra / duplicate attributes x letter case of tag and attribute names x whitespace layout x self-closing x 11 prologues (doctype, html/head, comment / script / title containing a fake meta, another meta, content without http-equiv, leading whitespace, a comment / script / style token of > 4 KiB) x {no mark, UTF-8 mark} x limit {0, default, just past the declaration}; XML: label x quote x {version+encoding, +standalone, spaced} x {none, whitespace, mark} x limit; each rendered by the concretiser and run through Detect; the reported charset must equal the specification's Expected. non-trivial = documents whose result type is text/html resp. text/xml" % (t1["distinct"], t2["distinct"], "8 labels" if quick else "20 labels"),
         exhaustive=True,
         result_types=rep["extra"]["result_types"],
         not_applicable_documents=rep["extra"]["result_type_other_than_html_xml"],
